@@ -154,6 +154,11 @@ def bag(F, b):
                     continue
                 if ak in ('std::option::Option::Some', 'std::result::Result::Ok', 'std::result::Result::Err', 'std::cmp::Reverse::Reverse') and False:
                     continue
+                if len(rv['ops']) >= 2:
+                    # a field-by-field copy `T(x.0.clone(), x.1.clone(), ..)` is `x.clone()` (clone itself is transparent here)
+                    ots = [strip_payload(pv.of_operand(o)) for o in rv['ops']]
+                    if all(isinstance(o, tuple) and len(o) == 3 and o[0] == 'f' and o[2] == str(i) for i, o in enumerate(ots)) and len({o[1] for o in ots}) == 1:
+                        continue
                 ev[('AGGR', ak, depth, ctx_of(bi), ())] += 1
             elif s['dst']['l'] == 0 and not s['dst']['p'] and rv['k'] == 'use' and rv['ops'][0]['k'] == 'const':
                 ev[('RET', rv['ops'][0]['v'], depth, ctx_of(bi), ())] += 1
@@ -208,14 +213,14 @@ PLUMBING = re.compile(r'^(std::iter::Iterator::(?!rev$|skip$|take$|step_by$|skip
                       r'\[T\]::iter|std::vec::Vec::iter|<&std::vec::Vec as std::iter::IntoIterator>::into_iter|<std::vec::Vec as std::iter::IntoIterator>::into_iter)$')
 
 
-STD_ONLY = re.compile(r'^(std::vec::|std::collections::|HSET|HMAP|\[T\]::|std::iter::|<&?std::|<I as std::iter::|std::option::|std::result::|std::mem::(swap|replace|take)$|std::cmp::(min|max)$)')
+STD_ONLY = re.compile(r'^(std::vec::|std::collections::|HSET|HMAP|<HSET as |<HMAP as |std::ops::Fn(Mut|Once)?::call(_mut|_once)?$|\[T\]::|std::iter::|<&?std::|<I as std::iter::|std::option::|std::result::|std::mem::(swap|replace|take)$|std::cmp::(min|max)$)')
 
 
 # std operations whose presence/absence on one side only is a matter of idiom (read-only queries, cursor-style consumption, iterator
 # adaptors that keep order and multiplicity); mutating or order-changing ones (truncate, drain, retain, sort, swap_remove, ...) are not
 IDIOM_OPS = {'contains', 'contains_key', 'get', 'len', 'is_empty', 'iter', 'into_iter', 'next', 'position', 'enumerate', 'map', 'cloned', 'copied', 'collect',
              'pop', 'push', 'extend', 'append', 'reverse', 'rev', 'last', 'first', 'sum', 'ok_or', 'ok_or_else', 'unwrap_or', 'is_some', 'is_none', 'is_ok', 'is_err', 'as_ref', 'values', 'keys',
-             'any', 'all', 'find', 'for_each', 'count', 'index', 'skip', 'with_capacity', 'new', 'default', 'and_then', 'ok', 'filter_map', 'flatten', 'zip', 'chain', 'by_ref', 'peekable'}
+             'any', 'all', 'find', 'for_each', 'count', 'index', 'skip', 'eq', 'ne', 'call', 'call_mut', 'call_once', 'split_last', 'split_first', 'saturating_sub', 'with_capacity', 'new', 'default', 'and_then', 'ok', 'filter_map', 'flatten', 'zip', 'chain', 'by_ref', 'peekable'}
 
 
 ITER_PLUMBING = {'iter', 'into_iter', 'next', 'map', 'cloned', 'copied', 'collect', 'enumerate', 'sum', 'for_each', 'by_ref', 'values', 'keys', 'as_ref', 'len', 'with_capacity', 'new'}
@@ -246,10 +251,15 @@ def coarse(F, b, seen=None):
         return out
     seen.add(b['q'])
     local_bodies = {}
+    fn_items = []
     for bi, t in calls_in(b):
         r = t.get('res', '')
         if t.get('local') and r in F.bodies:
             local_bodies[normname(r)] = F.bodies[r]
+        for a in t['args']:
+            # a crate function passed by name (`collect_nodes(Node::is_root)`) is called by whoever receives it
+            if a.get('k') == 'const' and a.get('fn') and a['fn'] in F.bodies:
+                fn_items.append(F.bodies[a['fn']])
     for (kind, name, depth, cx, sig), n in bag(F, b).items():
         if kind == 'CALL' and PLUMBING.match(name):
             continue
@@ -261,6 +271,8 @@ def coarse(F, b, seen=None):
             out |= coarse(F, local_bodies[name], seen)
             continue
         out.add((kind, name))
+    for fb in fn_items:
+        out |= coarse(F, fb, seen)
     for bb in b['blocks']:
         if bb['cleanup']:
             continue
